@@ -79,11 +79,20 @@ def pCmd (s : String) : Option (Command F) :=
 def sCmd (c : Command F) : String := sPosDer c.kind ++ sF c.raw
 
 /-- value type tags of the protocol -/
-inductive Ty | f | b | q | s | c
+inductive Ty | f | b | q | s | c | w
   deriving DecidableEq
 def pTy (s : String) : Option Ty :=
   if s == "f" then some .f else if s == "b" then some .b else if s == "q" then some .q
-  else if s == "s" then some .s else if s == "c" then some .c else none
+  else if s == "s" then some .s else if s == "c" then some .c else if s == "w" then some .w else none
+
+/-- `w`: words over `a..z` with non-commutative operators (concatenation with an infix mark), cut at 24 letters — see harness enc.rs -/
+def pW (s : String) : Option String :=
+  if s.startsWith "W:" then
+    let r := (s.drop 2).toString
+    if r.length ≤ 24 ∧ r.toList.all (fun c => 'a' ≤ c ∧ c ≤ 'z') then some r else none
+  else none
+def sW (w : String) : String := "W:" ++ w
+def wCat (mark : String) (a b : String) : String := String.ofList ((a ++ mark ++ b).toList.take 24)
 
 def pErr (s : String) : Option Err :=
   if s == "EN" then some .fromNone
